@@ -90,7 +90,7 @@ prop('C04', True, "The lock operations are not modelled by hand: on every run th
 
 prop('C19', True, "Lean model of the helper loop and of is_failed() on an integer clock. Theorems: live_never_failed (for every run length and every sequence of round overshoots <= Delta, if sigma + rounds*(period+Delta) < expiry "
      "the lock's age stays below the expiry at every instant), start_inv, dead_eventually_failed (no refresh after the wake-up that finds the parent gone; failed from death+expiry on), terminates_parent_gone, "
-     "terminates_lock_gone. Bridges re-extracted on every run by driving the real main()/is_failed()/lock on a simulated clock: constants_safe (period 5, rounds 60, expiry 1800 => Delta = 24 s is safe), loop_matches "
+     "terminates_lock_gone. Bridges re-extracted on every run by driving the real main()/is_failed()/lock on a simulated clock: constants_safe (the re-extracted period, rounds and expiry tolerate wake-ups late by the assumed 10 s: 59 + rounds*(period+10) < expiry), loop_matches "
      "(call order of 125 real rounds = model), exits_match, helper_started_plainly (Popen argv/kwargs, release/fail kill the helper). Correspondence: real loop on the simulated clock for seconds..10 days, death at every "
      "offset, lock removal; plus a real helper process started by the real lock with a relative jug directory.",
      "Timing assumption (stated in the theorem): a round overshoots its sleep by less than Delta; a refresh racing the helper's own SIGKILL is not modelled; getppid()/kill() semantics trusted.",
